@@ -23,6 +23,13 @@ RULE = ("masters x fetch results x every extracted node (incl. each element of m
 ASSUMPTIONS = ["masters without disabled objects for the detachment comparison"]
 
 
+class Merged:
+    """the blocks of one master scope (a non-multiple scope may be opened several times) seen as one"""
+
+    def __init__(self, blocks):
+        self.objects = [o for b in blocks for o in b.objects]
+
+
 def nodes(ex, ms, path, out):
     """(extracted node, master scope, expected dotted path) pre-order"""
     out.append((ex, ms, path))
@@ -31,8 +38,11 @@ def nodes(ex, ms, path, out):
         if mo.is_disabled or mo.name in seen or mo.is_definition:
             continue
         seen.add(mo.name)
-        v = getattr(ex, mo.name, None)
-        p = mo.name if not path else path + "." + mo.name
+        name = mo.name
+        if not mo.multiple:
+            mo = Merged([o for o in ms.objects if o.name == name and not o.is_disabled and o.is_scope])
+        v = getattr(ex, name, None)
+        p = name if not path else path + "." + name
         if isinstance(v, list):
             for e in v:
                 if isinstance(e, freephil.scope_extract):
@@ -151,7 +161,7 @@ def run(ctx):
         if ctx.time_left() < 30:
             ctx.notes.append("stopped early on time budget")
             break
-        tree, mt, srcs = _fetch.gen(rng, nested=(i % 5 == 4), disabled=False)
+        tree, mt, srcs = _fetch.gen(rng, nested=(i % 5 == 4), disabled=False, reopen=(i % 3 == 1))
         m = freephil.parse(input_string=mt)
         ss = [freephil.parse(input_string=s) for s in srcs]
         try:
